@@ -63,6 +63,9 @@ class Harness:
         self.props = kv.get("props", "").split(",")
         self.panics = kv.get("panics", kv.get("props", "")).split(",")
         self.tier = kv.get("tier", "quick")
+        # optional: quick=C03,C07 -> quick tier only for these properties,
+        # thorough tier for the others listed in props/panics
+        self.quick = kv.get("quick", "").split(",") if kv.get("quick") else None
         self.mem = float(kv.get("mem", "4"))
         self.timeout = int(kv.get("t", "600"))
         self.fn = kv.get("fn", "")
@@ -161,8 +164,12 @@ def select(allh, prop, tier):
     for h in allh:
         if prop not in h.props and prop not in h.panics:
             continue
-        if tier == "quick" and h.tier != "quick":
-            continue
+        if tier == "quick":
+            if h.quick is not None:
+                if prop not in h.quick:
+                    continue
+            elif h.tier != "quick":
+                continue
         out.append(h)
     return out
 
@@ -220,6 +227,10 @@ def t_hashmap_model(scratch):
 
             def repl(m):
                 line = m.group(0)
+                if "RandomState" in line or "DefaultHasher" in line:
+                    return line  # hashing primitives stay real (rrl.rs)
+                if not re.search(r"HashMap|HashSet|hash_map", line) or re.search(r"VecDeque|BTree|BinaryHeap|LinkedList", line):
+                    return line  # other collections stay real
                 model = line.replace("std::collections", "crate::kani_model")
                 return "#[cfg(not(kani))]\n" + line + "\n#[cfg(kani)]\n" + model
             s2, k = re.subn(r"^use std::collections::[^;]*;", repl, s, flags=re.M)
@@ -541,7 +552,7 @@ def match_known(known, prop, h, chk):
 # scheduler
 # --------------------------------------------------------------------------
 
-def run_all(hs, scratch, logdir, seed):
+def run_all(hs, scratch, logdir, seed, playback=False):
     """Run harnesses in parallel under a memory budget. Big ones first."""
     order = sorted(hs, key=lambda h: (-h.mem * h.timeout, h.name))
     if seed:
@@ -556,7 +567,7 @@ def run_all(hs, scratch, logdir, seed):
 
     def worker(h):
         try:
-            r = run_harness(h, scratch, logdir)
+            r = run_harness(h, scratch, logdir, playback=playback)
         except Exception as e:  # noqa
             r = {"harness": h, "verdict": None, "checks": [], "rc": -1, "timed_out": False,
                  "timed_out_kani": False, "wall": 0.0, "log": "", "text": "runner exception: %r" % (e,),
@@ -688,25 +699,30 @@ def do_check(prop, tier, extra_engine=None):
             print("INCONCLUSIVE property=%s overlay failed: %s" % (prop, e), flush=True)
             return 2
         log("check %s tier=%s: %d harnesses, families=%s, tree=%s" % (prop, tier, len(hs), families, tree_hash(REPO)))
-        build_template(scratch, logdir)
+        try:
+            build_template(scratch, logdir)
+        except Inconclusive as e:
+            print("INCONCLUSIVE property=%s %s" % (prop, e), flush=True)
+            return 2
         results = run_all(hs, scratch, logdir, seed)
         for n, r in results.items():
             statuses[n] = classify(r, prop)
-        # --- replay failures before reporting
+        # --- replay failures before reporting (playback generation in parallel)
         for n, (st, det) in sorted(statuses.items()):
-            h = results[n]["harness"]
             if st == "inconclusive":
                 inconclusive.append((n, det))
-            if st != "fail":
-                continue
-            pb = run_harness(h, scratch, logdir, playback=True)
+        failing = [results[n]["harness"] for n, (st, _) in sorted(statuses.items()) if st == "fail"]
+        pbs = run_all(failing, scratch, logdir, seed, playback=True) if failing else {}
+        for h in failing:
+            n = h.name
+            det = statuses[n][1]
+            pb = pbs[n]
             tests = [t for t in extract_playback_tests(pb["text"]) if t["kind"] != "cover" and t["name"]]
             mine_desc = set(c["desc"] for c in det)
             chosen = [t for t in tests if t["desc"] in mine_desc] or tests
             repro = {}
             if chosen:
                 repro, nlog = run_playback_tests(fams, h, chosen, logdir, "cex")
-            reproduced_any = False
             for c in det:
                 ts = [t for t in chosen if t["desc"] == c["desc"]] or chosen
                 ok = [t for t in ts if repro.get(t["name"], (False,))[0]]
@@ -714,7 +730,6 @@ def do_check(prop, tier, extra_engine=None):
                 if not ok:
                     inconclusive.append((n, "counterexample for %r did not reproduce natively (encoding/stub error?)" % c["desc"]))
                     continue
-                reproduced_any = True
                 t = ok[0]
                 rdir = os.path.join(VERIF, "replays", prop)
                 os.makedirs(rdir, exist_ok=True)
